@@ -126,7 +126,7 @@ func genC05(g *Gen) {
 	}
 	// bulk runs across the capacity thresholds of a growing slice
 	for _, kind := range []string{"queue", "lqueue"} {
-		for _, n := range bulkSizes(g.Thorough()) {
+		for _, pl := range bulkPlans(g.Thorough()) {
 			if !g.Mine() {
 				continue
 			}
@@ -134,8 +134,16 @@ func genC05(g *Gen) {
 			if kind == "lqueue" {
 				params = []string{"0"}
 			}
-			g.Emit(kind, params, bulkOps(func(i int) string { return "enqueue " + itoa(i%7-1) }, "dequeue",
-				[]string{"size", "peek", "search 0", "search 5"}, n))
+			n := pl[0]
+			// distinct values in the big runs (a wiped or duplicated element must be visible), a small alphabet with
+			// the zero value in the standard ones
+			val := func(i int) string { return "enqueue " + itoa(i%7-1) }
+			obs := []string{"size", "peek", "search 0", "search 5"}
+			if n > 3000 {
+				val = func(i int) string { return "enqueue " + itoa(i+1) }
+				obs = []string{"size", "peek", "search 0", "search " + itoa(n), "search " + itoa(n-n/8), "search " + itoa(n/2)}
+			}
+			g.Emit(kind, params, bulkPlan(val, "dequeue", obs, pl[0], pl[1], pl[2]))
 		}
 	}
 	// seeded long runs that repeatedly drain and refill, wider alphabet
@@ -206,7 +214,7 @@ func genC06(g *Gen) {
 		})
 	}
 	for _, kind := range []string{"stack", "lstack"} {
-		for _, n := range bulkSizes(g.Thorough()) {
+		for _, pl := range bulkPlans(g.Thorough()) {
 			if !g.Mine() {
 				continue
 			}
@@ -214,8 +222,14 @@ func genC06(g *Gen) {
 			if kind == "lstack" {
 				params = []string{"0"}
 			}
-			g.Emit(kind, params, bulkOps(func(i int) string { return "push " + itoa(i%7-1) }, "pop",
-				[]string{"size", "peek", "search 0", "search 5"}, n))
+			n := pl[0]
+			val := func(i int) string { return "push " + itoa(i%7-1) }
+			obs := []string{"size", "peek", "search 0", "search 5"}
+			if n > 3000 {
+				val = func(i int) string { return "push " + itoa(i+1) }
+				obs = []string{"size", "peek", "search 0", "search " + itoa(n), "search " + itoa(n/2)}
+			}
+			g.Emit(kind, params, bulkPlan(val, "pop", obs, pl[0], pl[1], pl[2]))
 		}
 	}
 	n := 300
